@@ -946,6 +946,7 @@ func runC16(c *Ctx, tier string) {
 	runC16S2(c)
 	runC16S3(c)
 	runC16B1(c)
+	runSeekIndexMaxMeaning(c, "C16-B2")
 	checkNullsMax(c, "C16-N1")
 }
 
